@@ -7,10 +7,10 @@ WT="$(mktemp -d /tmp/seedverify_XXXXXX)"; rmdir "$WT"
 RUN="$(mktemp -d /tmp/seedverify_run_XXXXXX)"
 git -C /repo worktree add -q --detach "$WT" HEAD || exit 2
 cd "$RUN"
-PYTHONPATH="$WT/src" timeout 600 /venv/bin/python "$DEMO" >/dev/null 2>&1; a=$?
+PYTHONPATH="$WT/src${SEED_EXTRA_PATH:+:$SEED_EXTRA_PATH}" timeout 600 ${SEED_PY:-/venv/bin/python} "$DEMO" >/dev/null 2>&1; a=$?
 t0="$(cd "$WT" && PYTHONPATH="$WT/src" timeout 3000 /venv/bin/python -m pytest -q -p no:cacheprovider "$@" 2>&1 | grep -E "passed|failed|error" | tail -1)"
 if ! git -C "$WT" apply "$PATCH"; then echo "PATCH DOES NOT APPLY"; git -C /repo worktree remove --force "$WT"; rm -rf "$RUN"; exit 2; fi
-PYTHONPATH="$WT/src" timeout 600 /venv/bin/python "$DEMO" >/dev/null 2>&1; b=$?
+PYTHONPATH="$WT/src${SEED_EXTRA_PATH:+:$SEED_EXTRA_PATH}" timeout 600 ${SEED_PY:-/venv/bin/python} "$DEMO" >/dev/null 2>&1; b=$?
 t1="$(cd "$WT" && PYTHONPATH="$WT/src" timeout 3000 /venv/bin/python -m pytest -q -p no:cacheprovider "$@" 2>&1 | grep -E "passed|failed|error" | tail -1)"
 echo "demo without patch: exit $a (want 0); with patch: exit $b (want != 0)"
 echo "tests without patch: $t0"
